@@ -26,8 +26,8 @@
   (ite (= t tid.crypto.Aes256CtsHmacSha384192) #x00000014
   (ite (= t tid.crypto.RC4HMAC) #xffffff76 #x00000000)))))))
 
-;; protocol key length in bytes
-(define-fun et_keybytes ((t Int)) (_ BitVec 64)
+;; protocol key length in bytes (RFC 3961 6.3: 24; RFC 3962 6: 16 / 32; RFC 8009 5: 16 / 32; RFC 4757: 16)
+(define-fun et_protokeybytes ((t Int)) (_ BitVec 64)
   (ite (= t tid.crypto.Des3CbcSha1Kd) #x0000000000000018
   (ite (= t tid.crypto.Aes128CtsHmacSha96) #x0000000000000010
   (ite (= t tid.crypto.Aes256CtsHmacSha96) #x0000000000000020
@@ -35,13 +35,20 @@
   (ite (= t tid.crypto.Aes256CtsHmacSha384192) #x0000000000000020
   (ite (= t tid.crypto.RC4HMAC) #x0000000000000010 #x0000000000000000)))))))
 
-;; key-generation seed length in bits (des3: 168; others: key size)
+;; value of the GetKeyByteSize getter. Helper contract derived from the code and its call sites: for
+;; aes256-cts-hmac-sha384-192 the getters report the size of the checksum / integrity keys Kc, Ki (192 bits,
+;; RFC 8009 5) and rfc8009 special-cases the 256-bit protocol key and Ke. The protocol key size the property
+;; asks for is et_protokeybytes; consumers that use the getter as the protocol key size are checked against that.
+(define-fun et_keybytes ((t Int)) (_ BitVec 64)
+  (ite (= t tid.crypto.Aes256CtsHmacSha384192) #x0000000000000018 (et_protokeybytes t)))
+
+;; value of the GetKeySeedBitLength getter (des3: 168; aes256-cts-hmac-sha384-192: 192 = Kc/Ki size, see et_keybytes; others: key size)
 (define-fun et_seedbits ((t Int)) (_ BitVec 64)
   (ite (= t tid.crypto.Des3CbcSha1Kd) #x00000000000000a8
   (ite (= t tid.crypto.Aes128CtsHmacSha96) #x0000000000000080
   (ite (= t tid.crypto.Aes256CtsHmacSha96) #x0000000000000100
   (ite (= t tid.crypto.Aes128CtsHmacSha256128) #x0000000000000080
-  (ite (= t tid.crypto.Aes256CtsHmacSha384192) #x0000000000000100
+  (ite (= t tid.crypto.Aes256CtsHmacSha384192) #x00000000000000c0
   (ite (= t tid.crypto.RC4HMAC) #x0000000000000080 #x0000000000000000)))))))
 
 ;; HMAC output (truncated) length in bits
@@ -77,7 +84,7 @@
 ;; size rules of the data path (RFC 3961 6.3: whole 8-byte blocks, 24-byte key; RFC 3962 6 / RFC 8009 5:
 ;; AES in CBC-CTS mode, any plaintext length; RFC 4757: stream cipher)
 (define-fun et_encok ((t Int) (kl (_ BitVec 64)) (dl (_ BitVec 64))) Bool
-  (and (= kl (et_keybytes t)) (et_known t)))
+  (and (= kl (et_protokeybytes t)) (et_known t)))
 
 (define-fun et_ctlen ((t Int) (dl (_ BitVec 64))) (_ BitVec 64)
   (ite (= t tid.crypto.Des3CbcSha1Kd) (bvmul (bvudiv (bvadd dl #x0000000000000007) #x0000000000000008) #x0000000000000008)
@@ -85,10 +92,73 @@
   (ite (bvsle dl #x0000000000000010) #x0000000000000010 dl))))
 
 (define-fun et_decok ((t Int) (kl (_ BitVec 64)) (dl (_ BitVec 64))) Bool
-  (and (= kl (et_keybytes t)) (et_known t)
+  (and (= kl (et_protokeybytes t)) (et_known t)
     (ite (= t tid.crypto.Des3CbcSha1Kd) (and (bvsge dl #x0000000000000008) (= (bvurem dl #x0000000000000008) #x0000000000000000))
     (ite (= t tid.crypto.RC4HMAC) true (bvsge dl #x0000000000000010)))))
 
+;; ---- RFC compositions over the uninterpreted primitives ----
+
+;; RFC 3961 5.1: DR(Key, Constant) = k-truncate(E(Key, n-fold(Constant), initial-cipher-state)), iterated until long
+;; enough. Uninterpreted at this level (per etype); property C08 relates rfc3961.DeriveRandom / Nfold to the RFC text.
+(declare-fun et_dr (Int BSeq BSeq) BSeq)
+
+;; RFC 3961 6.3.1: des3 random-to-key (56-bit stretching with parity and weak-key correction); other etypes: identity
+(declare-fun des3_r2k (BSeq) BSeq)
+
+(define-fun et_r2k ((t Int) (b BSeq)) BSeq
+  (ite (= t tid.crypto.Des3CbcSha1Kd) (des3_r2k b) (ite (= t tid.crypto.RC4HMAC) (hashf fid.golang.org.x.crypto.md4.New b) b)))
+
+;; the ASCII string "kerberos"
+(define-fun is_kerberos ((l BSeq)) Bool
+  (and (= (bseq.len l) #x0000000000000008)
+    (= (bseq.at l #x0000000000000000) #x6b) (= (bseq.at l #x0000000000000001) #x65) (= (bseq.at l #x0000000000000002) #x72) (= (bseq.at l #x0000000000000003) #x62)
+    (= (bseq.at l #x0000000000000004) #x65) (= (bseq.at l #x0000000000000005) #x72) (= (bseq.at l #x0000000000000006) #x6f) (= (bseq.at l #x0000000000000007) #x73)))
+
+;; RFC 8009 5: output length k of KDF-HMAC-SHA2 in bits: aes128-cts-hmac-sha256-128: 128 for Kc, Ki, Ke and
+;; string-to-key; aes256-cts-hmac-sha384-192: 192 for Kc and Ki, 256 for Ke (label ends in 0xAA) and string-to-key ("kerberos")
+(define-fun kdf8009_bits ((t Int) (label BSeq)) (_ BitVec 64)
+  (ite (= t tid.crypto.Aes256CtsHmacSha384192)
+    (ite (or (= (bseq.at label (bvsub (bseq.len label) #x0000000000000001)) #xaa) (is_kerberos label)) #x0000000000000100 #x00000000000000c0)
+    #x0000000000000080))
+
+;; RFC 8009 3: KDF-HMAC-SHA2(key, label, [context,] k) = k-truncate(HMAC(key, 0x00000001 | label | 0x00 | [context |] k))
+;; (k as a 32-bit big-endian integer)
+(define-fun kdf_hmac_sha2 ((f Int) (key BSeq) (label BSeq) (context BSeq) (kbits (_ BitVec 64))) BSeq
+  (seqtrunc (hmac f key (seqcat (seqcat (seqcat (seqcat (seqbe32 #x00000001) label) (seqbyte #x00)) context) (seqbe32 ((_ extract 31 0) kbits))))
+            (bvudiv kbits #x0000000000000008)))
+
+;; Key derivation of an encryption type, DeriveKey(protocol key, constant): RFC 3961 5.1 DK = random-to-key(DR(...))
+;; (des3, aes-sha1), RFC 8009 KDF-HMAC-SHA2 (aes-sha2), RFC 4757: HMAC-MD5(key, constant)
+(define-fun et_dk ((t Int) (k BSeq) (c BSeq)) BSeq
+  (ite (or (= t tid.crypto.Aes128CtsHmacSha256128) (= t tid.crypto.Aes256CtsHmacSha384192))
+    (kdf_hmac_sha2 (et_hashfn t) k c seqempty (kdf8009_bits t c))
+  (ite (= t tid.crypto.RC4HMAC) (hmac fid.crypto.md5.New k c)
+    (et_r2k t (et_dr t k c)))))
+
+;; RFC 3961 5.3: the well-known constant is the key usage number in big-endian order followed by one octet
+;; 0x99 (Kc), 0xAA (Ke) or 0x55 (Ki)
+(define-fun usage_const ((u (_ BitVec 32)) (o (_ BitVec 8))) BSeq (seqcat (seqbe32 u) (seqbyte o)))
+
+;; RFC 4757 3: usage 3 -> 8, 9 -> 8, 23 -> 13 (Microsoft message types)
+(define-fun ms_usage ((u (_ BitVec 32))) (_ BitVec 32)
+  (ite (= u #x00000003) #x00000008 (ite (= u #x00000009) #x00000008 (ite (= u #x00000017) #x0000000d u))))
+
+;; the ASCII string "signaturekey" with its terminating zero octet (RFC 4757 4); seqlit.<hex> is the sequence
+;; constant of a literal (declared by the engine with exactly these bytes)
+(define-fun rc4_sigkey () BSeq (seqcat seqlit.7369676e61747572656b6579 (seqbyte #x00)))
+
+;; RFC 4757 4: Ksign = HMAC(K, "signaturekey\0"); tmp = MD5(le32(T) | data); CHKSUM = HMAC(Ksign, tmp)
+(define-fun rc4_cksum ((k BSeq) (u (_ BitVec 32)) (d BSeq)) BSeq
+  (hmac fid.crypto.md5.New (hmac fid.crypto.md5.New k rc4_sigkey) (hashf fid.crypto.md5.New (seqcat (seqle32 (ms_usage u)) d))))
+
+;; RFC 3961 5.3 / RFC 8009 5: keyed checksum = HMAC(Kc, data) truncated to the etype's output length, Kc = DK(key, usage | 0x99)
+(define-fun simplified_cksum ((t Int) (k BSeq) (c BSeq) (d BSeq)) BSeq
+  (seqtrunc (hmac (et_hashfn t) (et_dk t k c) d) (bvudiv (et_hmacbits t) #x0000000000000008)))
+
 ;; Keyed checksum of an encryption type over data with a key and key usage: the RFC-defined value
-;; (RFC 3961 5.3 / RFC 8009 5 / RFC 4757 4). Uninterpreted here; C07 connects it to the HMAC composition.
-(declare-fun et_cksum (Int BSeq (_ BitVec 32) BSeq) BSeq)
+(define-fun et_cksum ((t Int) (k BSeq) (u (_ BitVec 32)) (d BSeq)) BSeq
+  (ite (= t tid.crypto.RC4HMAC) (rc4_cksum k u d) (simplified_cksum t k (usage_const u #x99) d)))
+
+;; IANA checksum type number -> encryption family (Kerberos parameters registry: 12, 15, 16, 19, 20; -138 RFC 4757)
+(define-fun cksum_etype_ok ((id (_ BitVec 32)) (t Int)) Bool
+  (and (et_known t) (= (et_cksumid t) id)))
